@@ -463,8 +463,14 @@ def _sequence_common_getitem_impl(ctx: CallContext, typ: type) -> ImplReturn:
                 if isinstance(self_value, SequenceValue):
                     members = self_value.get_member_sequence()
                     if members is not None:
+                        try:
+                            sliced = members[key.val]
+                        except (ValueError, TypeError) as e:
+                            # e.g. a zero step or non-integer bounds
+                            ctx.show_error(f"Invalid {typ.__name__} slice {key}: {e}")
+                            return AnyValue(AnySource.error)
                         return SequenceValue.make_or_known(
-                            typ, [(False, m) for m in members[key.val]]
+                            typ, [(False, m) for m in sliced]
                         )
                     else:
                         # If the value contains unpacked values, we don't attempt
